@@ -226,6 +226,12 @@ func registerStd(e *Engine, simple func(string, func(*Run, []Value) Value)) {
 		return r.strFromBytes(bs)
 	})
 	simple("(*strings.Builder).copyCheck", func(r *Run, a []Value) Value { return nil })
+	simple("internal/bytealg.MakeNoZero", func(r *Run, a []Value) Value {
+		n := int(r.concreteInt(a[0], "MakeNoZero length"))
+		s := r.newSlice(types.Typ[types.Uint8], nil, n)
+		s.len = n
+		return s
+	})
 	simple("internal/bytealg.IndexByteString", func(r *Run, a []Value) Value {
 		s := r.mustStr(a[0])
 		b := byte(r.concreteInt(a[1], "byte"))
